@@ -84,6 +84,6 @@ def S.hasSub : S → Bool
   | .mk _ a b c n i p ad => n.isSome || i.isSome || ad.isSome || !p.isEmpty || !c.isEmpty || !b.isEmpty || !a.isEmpty
 
 /-- the early return of `visitJSON` for unconstrained schemas -/
-def S.shortcut (s : S) : Bool := s.isEmpty && !s.hasSub
+def S.shortcut (s : S) : Bool := !s.hasSub && s.isEmpty
 
 end KinModel.Schema
